@@ -2194,6 +2194,12 @@ impl ProtocolState {
             }
         }
 
+        // MQTT 3.1.1 [MQTT-3.1.3-7]: a zero-byte client id is only allowed together with CleanSession = 1 (there is
+        // no session the server could resume for a client it has to name itself)
+        if self.protocol_version == ProtocolVersion::Mqtt311 && connect.client_id.as_deref().unwrap_or("").is_empty() {
+            connect.clean_start = true;
+        }
+
         Box::new(MqttPacket::Connect(connect))
     }
 
